@@ -129,14 +129,43 @@ def convert(case, csv_text, workdir):
         mci_ipm_to_csv.mci_ipm_to_csv(in_ipm=io.BytesIO(ipm.getvalue()), out_csv=out, config=config, in_encoding=enc,
                                       no1014blocking=not blocked)
         return out.getvalue()
+    import json
+    import sys
     inp = os.path.join(workdir, 'in.csv')
     ipm = os.path.join(workdir, 'mid.ipm')
     outp = os.path.join(workdir, 'out.csv')
+    for p_ in (ipm, outp, inp + '.ipm', inp + '.ipm.csv'):
+        if os.path.exists(p_):
+            os.unlink(p_)
     with open(inp, 'w', newline='') as f:
         f.write(csv_text)
-    with quiet():
-        mci_csv_to_ipm.cli_run(in_filename=inp, out_filename=ipm, out_encoding=enc, no1014blocking=not blocked)
-        rc = mci_ipm_to_csv.cli_run(in_filename=ipm, out_filename=outp, in_encoding=enc, no1014blocking=not blocked)
+    argv0 = sys.argv
+    try:
+        with quiet():
+            if case['entry'] == 'cli':
+                mci_csv_to_ipm.cli_run(in_filename=inp, out_filename=ipm, out_encoding=enc,
+                                       no1014blocking=not blocked)
+                rc = mci_ipm_to_csv.cli_run(in_filename=ipm, out_filename=outp, in_encoding=enc,
+                                            no1014blocking=not blocked)
+            else:
+                # the installed commands: argument parser, default output names, optionally a JSON configuration
+                # file (written with sorted keys, as a user's tooling might)
+                extra = []
+                if case['entry'] == 'argv_cfg':
+                    cfgp = os.path.join(workdir, 'cardutil.json')
+                    with open(cfgp, 'w') as f:
+                        json.dump(config, f, sort_keys=True)
+                    extra = ['--config-file', cfgp]
+                sys.argv = ['mci_csv_to_ipm', inp, '--out-encoding', enc] + (['--no1014blocking'] if not blocked
+                                                                            else []) + extra
+                mci_csv_to_ipm.cli_entry()
+                ipm = inp + '.ipm'
+                sys.argv = ['mci_ipm_to_csv', ipm, '--in-encoding', enc] + (['--no1014blocking'] if not blocked
+                                                                           else []) + extra
+                rc = mci_ipm_to_csv.cli_entry()
+                outp = ipm + '.csv'
+    finally:
+        sys.argv = argv0
     if rc == -1:
         raise RuntimeError('mci_ipm_to_csv reported a data error')
     with open(outp, newline='') as f:
@@ -189,7 +218,7 @@ def enumerate_cases(tier, seed):
         for enc, blocked, entry in (envs or [('latin_1', True, 'func')]):
             cases.append({'cols': ['MTI'] + c, 'rows': rows, 'variant': variant, 'omit': omit, 'enc': enc,
                           'blocked': blocked, 'entry': entry, 'seed': seed})
-    all_envs = [(e, b, en) for e in CODECS for b in (False, True) for en in ('func', 'cli')]
+    all_envs = [(e, b, en) for e in CODECS for b in (False, True) for en in ('func', 'cli', 'argv', 'argv_cfg')]
     # MTI + each single column x every variant x every environment
     for ci, col in enumerate(de_cols + pds_cols + ['DE48']):
         for vi, v in enumerate(variants):
@@ -243,7 +272,8 @@ def describe(tier, seed):
                 'rows 1..3 with per-row omitted cells; an alignment sweep (a first row growing from 1 to 999 characters in '
                 'front of two rows of 1.0-2.0 kB, so the large records take every position relative to the 1012-byte '
                 'blocks); x {latin_1, cp500, cp037} x {VBS, 1014} x {function entry '
-                'points on StringIO/BytesIO, cli_run on real files}. Oracle: the output CSV read by csv.DictReader has '
+                'points on StringIO/BytesIO, cli_run on real files, the argument-parser entry with default output '
+                'names, the same with a JSON configuration file whose keys are sorted}. Oracle: the output CSV read by csv.DictReader has '
                 'the same number of rows in the same order and every supplied non-empty cell is textually equal.',
         'assumptions': ['fixed-width text is supplied at exactly the field width; numbers without leading zeros; '
                         'date-times as complete YYYY-MM-DD HH:MM:SS stamps (dateutil fills missing parts from today)',
